@@ -36,8 +36,10 @@ Definition DEC_INVALID : N := 2.
 Definition readTLV (data : bytes) : option (N * bytes * nat) :=
   match data with
   | tag :: l3 :: l2 :: l1 :: l0 :: rest =>
-      let len := N.to_nat (be_get [l3; l2; l1; l0]) in
-      if Nat.leb len (length rest) then Some (tag, firstn len rest, (5 + len)%nat) else None
+      let len := be_get [l3; l2; l1; l0] in
+      (* compared in N: the declared length may be 2^32-1 *)
+      if len <=? N.of_nat (length rest)
+      then Some (tag, firstn (N.to_nat len) rest, (5 + N.to_nat len)%nat) else None
   | _ => None
   end.
 
